@@ -729,3 +729,62 @@ pub fn run(tier: Tier, seed: u64, replay: Option<&str>) -> i32 {
     ev.write();
     code
 }
+
+
+/// libFuzzer entry: bytes -> (base image, mutation list) -> open + probe in-process.
+pub fn fuzz_entry(data: &[u8]) -> Result<(), String> {
+    use std::sync::OnceLock;
+    static BASES: OnceLock<Vec<(Config, Vec<u8>)>> = OnceLock::new();
+    let bases = BASES.get_or_init(|| {
+        install_panic_counter();
+        env::set_watch_limit(30_000);
+        build_bases(1)
+    });
+    if bases.is_empty() || data.len() < 3 {
+        return Ok(());
+    }
+    let b = |i: usize| data.get(i).copied().unwrap_or(0);
+    let w = |i: usize| u64::from_le_bytes([b(i), b(i + 1), b(i + 2), b(i + 3), b(i + 4), b(i + 5), b(i + 6), b(i + 7)]);
+    let base = (b(0) as u16) << 8;
+    let mut muts = Vec::new();
+    let mut i = 1;
+    while i + 10 <= data.len() + 9 && muts.len() < 5 && i < data.len() {
+        let kind = b(i) % 20;
+        let x16 = u16::from_le_bytes([b(i + 1), b(i + 2)]);
+        let big = [0u64, 1, u64::MAX, u64::MAX - 1, u64::MAX / 4096, 1 << 32, 4 * 1024 * 1024 + 1, w(i + 3)][(b(i + 3) % 8) as usize];
+        muts.push(match kind {
+            0 => Mutation::BitFlip { at: u32::from_le_bytes([b(i + 1), b(i + 2), b(i + 3), b(i + 4)]), bit: b(i + 5) % 8 },
+            1 => Mutation::ByteSet { at: u32::from_le_bytes([b(i + 1), b(i + 2), b(i + 3), b(i + 4)]), val: b(i + 5) },
+            2 => Mutation::BlockSwap { a: x16, b: u16::from_le_bytes([b(i + 3), b(i + 4)]) },
+            3 => Mutation::BlockDup { from: x16, to: u16::from_le_bytes([b(i + 3), b(i + 4)]) },
+            4 => Mutation::BlockZero { at: x16 },
+            5 => Mutation::BlockRandom { at: x16, seed: w(i + 3) },
+            6 => Mutation::RecValueLen { which: x16, val: big },
+            7 => Mutation::RecKeyLen { which: x16, val: [0u16, 4066, 4067, 4074, 4075, u16::MAX, x16][(b(i + 3) % 7) as usize] },
+            8 => Mutation::RecTimestamp { which: x16, val: big },
+            9 => Mutation::RecExpiry { which: x16, val: big },
+            10 => Mutation::RecDuplicate { which: x16, to: u16::from_le_bytes([b(i + 3), b(i + 4)]), ts_delta: (b(i + 5) % 3) as i8 - 1 },
+            11 => Mutation::MarkerRemaining { which: x16, val: big },
+            12 => Mutation::MarkerState { which: x16, val: b(i + 3) },
+            13 => Mutation::MarkerForge { at: x16, remaining: big, state: b(i + 4) % 3 },
+            14 | 15 => Mutation::Journal {
+                slot: b(i + 1) % 2,
+                generation: big,
+                version: [1u32, 2, 0, 3][(b(i + 4) % 4) as usize],
+                extents: (0..(b(i + 5) % 4)).map(|j| ([0u32, 15, 16, 20, u32::MAX, 40][(b(i + 6 + j as usize) % 6) as usize], [0u32, 1, 3, u32::MAX, 1000][(b(i + 7 + j as usize) % 5) as usize])).collect(),
+                state_override: (b(i + 8) % 3 == 0).then_some((b(i + 8) % 3) as u32),
+                count_override: (b(i + 9) % 3 == 0).then_some([0u32, 1024, 1025, u32::MAX][(b(i + 9) % 4) as usize]),
+            },
+            16 | 17 => Mutation::Meta { copy: b(i + 1) % 2, version: [0u32, 1, 2, 3, 4, u32::MAX][(b(i + 2) % 6) as usize], device_delta: [0i64, -4096, 4096, 1, i64::MAX, i64::MIN][(b(i + 3) % 6) as usize], generation: big, block_size: [4096u32, 4096, 0, 512][(b(i + 4) % 4) as usize], records: w(i + 5), with_checksum: b(i + 5) % 2 == 0 },
+            18 => Mutation::LegacyTombstone { at: x16 },
+            _ => Mutation::DropSignature,
+        });
+        i += 10;
+    }
+    let spec = ImageSpec::Mutant { base, muts };
+    let (img, ttl) = materialise(&spec, bases);
+    if img.len() <= 16 * B || img.len() % B != 0 {
+        return Ok(());
+    }
+    judge(&img, ttl, &mut WorkerStats::default()).map_err(|(sig, msg)| format!("[{sig}] {msg} | spec: {spec:?}"))
+}
